@@ -1024,6 +1024,13 @@ async fn states_case(cfg: &Cfg, life: Life, st: &mut Stats) -> Result<(), String
         ));
         st.set("create_cut_outcomes", vcore::fnv_str(&format!("{kind}|{b_open}|{}|{:?}", w.b_bound_observed, w.life_notes)));
     }
+    // how the state was reached, as a counter key (the sample slots are taken by the matrix)
+    st.count(&format!(
+        "state_script:{life:?}: {} => B {}, its key {}",
+        labs[0].w.life_notes.join("; "),
+        if b_open { "served" } else { "not served" },
+        if labs[0].w.b_bound_observed { "accepted" } else { "not accepted" }
+    ));
     st.sample(|| json!({"monitor": "states", "life": format!("{life:?}"), "world": world_desc(&labs[0].w),
                         "b_served": b_open, "b_key_accepted": labs[0].w.b_bound_observed,
                         "open_databases": labs[0].last.list, "script": labs[0].w.life_notes}));
@@ -1170,6 +1177,10 @@ async fn states_case(cfg: &Cfg, life: Life, st: &mut Stats) -> Result<(), String
                                         if known { "knows" } else { "does not know" }));
             }
         }
+    }
+    if !st.violations.is_empty() || st.get("violations_same_signature_suppressed") > 0 {
+        // (the report keeps one violation per signature: this tells in which states it fired)
+        st.count(&format!("state_with_violation:{life:?}"));
     }
     for lab in labs {
         st.add("worlds_built", lab.builds);
